@@ -59,6 +59,8 @@ pub enum Mutation {
     ReverseOutputs,
     /// witnesses[0] starts with a non-zero byte: invalid iff an input is locked by the witness-gate script
     BadWitness,
+    /// the same out point in two inputs whose `since` fields differ (both mature): still a double spend inside one transaction
+    DuplicatedInputOtherSince,
 }
 
 impl Mutation {
@@ -278,6 +280,12 @@ fn build(sim: &Sim, model: &mut Model, spec: &TxSpec, mutation: &Option<Mutation
                 outs.insert(0, (o.as_builder().capacity(Capacity::shannons(30 * 100_000_000).pack()).build(), d));
             }
             Mutation::DuplicatedInput => cell_inputs.push(cell_inputs[0].clone()),
+            Mutation::DuplicatedInputOtherSince => {
+                // absolute block number 1 (or 2): reached long ago, so only the duplicated out point can reject it
+                let first: u64 = cell_inputs[0].since().unpack();
+                let other = if first == 1 { 2 } else { 1 };
+                cell_inputs.push(CellInput::new(inputs[0].op.clone(), other));
+            }
             Mutation::UnknownInput => {
                 let h = Byte32::from_slice(&[0x5a ^ spec.salt as u8; 32]).unwrap();
                 cell_inputs.push(CellInput::new(OutPoint::new(h, 0), 0));
@@ -503,6 +511,7 @@ impl Property for C18 {
                 Just(Mutation::CapacityOverflow),
                 Just(Mutation::OutputBelowOccupied),
                 Just(Mutation::DuplicatedInput),
+                Just(Mutation::DuplicatedInputOtherSince),
                 Just(Mutation::UnknownInput),
                 Just(Mutation::UnknownDep),
                 Just(Mutation::MissingCodeDep),
